@@ -41,6 +41,24 @@ Section Instances.
                        else match get (fname f) (post initv) with Some v => [(fname f, v)] | None => [] end) fs.
 End Instances.
 
+(* ---------- optree/accessor.py DataclassEntry ---------- *)
+(* a dataclass registered as a custom node whose flatten function hands out the values of its INIT fields
+   in declaration order without entries gets the integer entries 0..n-1; DataclassEntry.field resolves
+   the integer entry i to the i-th init field (`init_fields[entry]`), a string entry to itself *)
+Definition init_fields (fs : list dfield) : list dfield := filter finit fs.
+Definition dc_entry_field (fs : list dfield) (i : nat) : option Z :=
+  option_map fname (nth_error (init_fields fs) i).
+(* the variant that indexes ALL fields (what a "simplification" to `fields[entry]` does) *)
+Definition dc_entry_field_all (fs : list dfield) (i : nat) : option Z :=
+  option_map fname (nth_error fs i).
+
+Section DataclassEntry.
+  Variable V : Type.
+  (* the children a custom flatten function of that kind hands out *)
+  Definition init_children (fs : list dfield) (x : inst V) : list (option V) :=
+    map (fun f => get V (fname f) x) (init_fields fs).
+End DataclassEntry.
+
 (* ---------- partial ---------- *)
 Inductive callable := CFun (id : Z) | CPartial (f : callable) (nargs : nat) (kws : list Z).
 
